@@ -139,6 +139,135 @@ theorem roundMag_int (a : ℕ) (ha : 0 < a) (hb : a < 2 ^ 53) :
     rw [if_neg (by omega)]
     rfl
 
+theorem geScaled_iff (a d : ℕ) (hd : 0 < d) (k : ℤ) :
+    geScaled a d k = true ↔ (2 : ℚ) ^ k ≤ (a : ℚ) / d := by
+  have hdq : (0 : ℚ) < d := by exact_mod_cast hd
+  unfold geScaled
+  split
+  · rename_i hk
+    rw [decide_eq_true_iff, le_div_iff₀ hdq, ← pow2_cast_of_nonneg k hk]
+    constructor
+    · intro h; have : ((d * pow2 k.toNat : ℕ) : ℚ) ≤ a := by exact_mod_cast h
+      push_cast at this; linarith
+    · intro h; have : ((d * pow2 k.toNat : ℕ) : ℚ) ≤ a := by push_cast; linarith
+      exact_mod_cast this
+  · rename_i hk
+    have hk' : 0 ≤ -k := by omega
+    have hp := pow2_cast_of_nonneg (-k) hk'
+    have h2 : (0 : ℚ) < 2 ^ (-k) := zpow_pos (by norm_num) _
+    have e : (2 : ℚ) ^ k = 1 / 2 ^ (-k) := by rw [zpow_neg]; simp
+    rw [decide_eq_true_iff, e, div_le_div_iff₀ h2 hdq, one_mul, ← hp]
+    constructor
+    · intro h; exact_mod_cast h
+    · intro h; exact_mod_cast h
+
+/-- the exponent chosen by `binadeExp` is not too large: `2^(52+e) ≤ a/d` on the normal range -/
+theorem binade_lower (a d : ℕ) (ha : 0 < a) (hd : 0 < d) (hn : (2 : ℚ) ^ (-1022 : ℤ) ≤ (a : ℚ) / d) :
+    (2 : ℚ) ^ (52 + binadeExp a d) ≤ (a : ℚ) / d := by
+  have hdq : (0 : ℚ) < d := by exact_mod_cast hd
+  have hlo : ((2 : ℚ) ^ a.log2) ≤ a := by exact_mod_cast Nat.log2_self_le (Nat.pos_iff_ne_zero.mp ha)
+  have hhi : (d : ℚ) < (2 : ℚ) ^ (d.log2 + 1) := by exact_mod_cast @Nat.lt_log2_self d
+  unfold binadeExp
+  simp only
+  -- the unclamped choice
+  have key : (2 : ℚ) ^ (52 + (if geScaled a d (52 + ((a.log2 : ℤ) - (d.log2 : ℤ) - 52)) = true then
+      ((a.log2 : ℤ) - (d.log2 : ℤ) - 52) else ((a.log2 : ℤ) - (d.log2 : ℤ) - 52) - 1)) ≤ (a : ℚ) / d := by
+    split
+    · rename_i hge
+      exact (geScaled_iff a d hd _).mp hge
+    · have e : (52 : ℤ) + (((a.log2 : ℤ) - (d.log2 : ℤ) - 52) - 1) = (a.log2 : ℤ) - ((d.log2 : ℤ) + 1) := by ring
+      rw [e, zpow_sub₀ (by norm_num : (2 : ℚ) ≠ 0), le_div_iff₀ hdq]
+      have h2 : (0 : ℚ) < 2 ^ ((d.log2 : ℤ) + 1) := zpow_pos (by norm_num) _
+      rw [div_mul_eq_mul_div, div_le_iff₀ h2]
+      have e1 : (2 : ℚ) ^ (a.log2 : ℤ) = 2 ^ a.log2 := zpow_natCast _ _
+      have e2 : (2 : ℚ) ^ ((d.log2 : ℤ) + 1) = 2 ^ (d.log2 + 1) := by
+        rw [← zpow_natCast]; congr 1
+      rw [e1, e2]
+      have : (0 : ℚ) ≤ 2 ^ a.log2 := by positivity
+      nlinarith
+  generalize (if geScaled a d (52 + ((a.log2 : ℤ) - (d.log2 : ℤ) - 52)) = true then
+      ((a.log2 : ℤ) - (d.log2 : ℤ) - 52) else ((a.log2 : ℤ) - (d.log2 : ℤ) - 52) - 1) = e' at key ⊢
+  split
+  · -- clamped to -1074
+    have : (52 : ℤ) + -1074 = -1022 := by norm_num
+    rw [this]; exact hn
+  · exact key
+
+theorem divRoundEven_ge (num den : ℕ) : num / den ≤ divRoundEven num den := by
+  unfold divRoundEven
+  simp only
+  split
+  · omega
+  · split <;> omega
+
+/-- on the normal range `roundMag` returns a full 53-bit mantissa -/
+theorem roundMag_full (a d m : ℕ) (e : ℤ) (ha : 0 < a) (hd : 0 < d)
+    (hn : (2 : ℚ) ^ (-1022 : ℤ) ≤ (a : ℚ) / d) (h : roundMag a d = some (m, e)) : 2 ^ 52 ≤ m := by
+  have hdq : (0 : ℚ) < d := by exact_mod_cast hd
+  have hb := binade_lower a d ha hd hn
+  unfold roundMag at h
+  rw [if_neg (by omega)] at h
+  simp only at h
+  generalize binadeExp a d = e0 at h hb
+  have hm0 : 2 ^ 52 ≤ (if 0 ≤ e0 then divRoundEven a (d * pow2 e0.toNat) else divRoundEven (a * pow2 (-e0).toNat) d) := by
+    rw [zpow_add₀ (by norm_num : (2 : ℚ) ≠ 0), le_div_iff₀ hdq] at hb
+    split
+    · rename_i he
+      rw [← pow2_cast_of_nonneg e0 he] at hb
+      have hden : 0 < d * pow2 e0.toNat := Nat.mul_pos hd (by unfold pow2; positivity)
+      refine le_trans ?_ (divRoundEven_ge _ _)
+      rw [Nat.le_div_iff_mul_le hden]
+      have : ((2 ^ 52 * (d * pow2 e0.toNat) : ℕ) : ℚ) ≤ a := by push_cast; push_cast at hb; linarith
+      exact_mod_cast this
+    · rename_i he
+      have hp := pow2_cast_of_nonneg (-e0) (by omega)
+      have hinv : (2 : ℚ) ^ e0 * 2 ^ (-e0) = 1 := by rw [← zpow_add₀ (by norm_num : (2 : ℚ) ≠ 0)]; simp
+      refine le_trans ?_ (divRoundEven_ge _ _)
+      rw [Nat.le_div_iff_mul_le hd]
+      have h2 : (0 : ℚ) < 2 ^ (-e0) := zpow_pos (by norm_num) _
+      have : ((2 ^ 52 * d : ℕ) : ℚ) ≤ ((a * pow2 (-e0).toNat : ℕ) : ℚ) := by
+        push_cast; rw [hp]
+        have := mul_le_mul_of_nonneg_right hb (le_of_lt h2)
+        have e : (2 : ℚ) ^ (52 : ℤ) * 2 ^ e0 * d * 2 ^ (-e0) = 2 ^ 52 * d * (2 ^ e0 * 2 ^ (-e0)) := by
+          rw [show (2 : ℚ) ^ (52 : ℤ) = 2 ^ 52 from by norm_num]; ring
+        rw [e, hinv, mul_one] at this
+        exact this
+      exact_mod_cast this
+  generalize (if 0 ≤ e0 then divRoundEven a (d * pow2 e0.toNat) else divRoundEven (a * pow2 (-e0).toNat) d) = m0 at h hm0
+  by_cases hc : m0 = pow2 53
+  · rw [if_pos hc] at h
+    simp only at h
+    split at h
+    · cases h
+    · injection h with h; injection h with h1 h2
+      rw [← h1]; unfold pow2; exact le_refl _
+  · rw [if_neg hc] at h
+    simp only at h
+    split at h
+    · cases h
+    · injection h with h; injection h with h1 h2
+      rw [← h1]; exact hm0
+
+/-- `roundNE` on the normal range returns a full mantissa -/
+theorem roundNE_fin_full (z : Bool) (q : ℚ) (n : Bool) (m : ℕ) (e : ℤ)
+    (h : roundNE z q = .fin n m e) (hq : (2 : ℚ) ^ (-1022 : ℤ) ≤ |q|) : 2 ^ 52 ≤ m := by
+  have hq0 : q ≠ 0 := by
+    intro h0; rw [h0, abs_zero] at hq
+    have : (0 : ℚ) < 2 ^ (-1022 : ℤ) := zpow_pos (by norm_num) _
+    linarith
+  have hnum : q.num ≠ 0 := fun hc => hq0 (Rat.num_eq_zero.mp hc)
+  unfold roundNE at h
+  rw [if_neg hnum] at h
+  simp only at h
+  cases hr : roundMag q.num.natAbs q.den with
+  | none => rw [hr] at h; cases h
+  | some p =>
+    obtain ⟨m', e'⟩ := p
+    rw [hr] at h
+    injection h with _ hm' _
+    subst hm'
+    exact roundMag_full _ _ _ _ (Int.natAbs_pos.mpr hnum) q.den_pos (by rw [natAbs_div_den]; exact hq) hr
+
 /-- converting an integer `0 < |r| < 2^53` to binary64 is exact -/
 theorem ofInt_exact (z : Bool) (r : ℤ) (h0 : r ≠ 0) (hb : r.natAbs < 2 ^ 53) :
     ∃ m e, ofInt z r = .fin (decide (r < 0)) m e ∧ finRat (decide (r < 0)) m e = r ∧ m ≠ 0 := by
@@ -223,5 +352,77 @@ theorem makePrecise_idem_model (pm : PM) (ms : ℕ) (es : ℤ) (hs : pm.scale = 
   rw [hz, makePrecise_scale_branch pm ms es hs hms hg, hy']
   show divF (ofInt ny' (javaRound (finRat ny' my' ey'))) pm.scale = _
   rw [hsame, ofInt_zneg_irrel ny' ny r hr0, ho, hs, ← h1, hz]
+
+
+/-- the same with the normal-range facts *derived*: it suffices that the scale is at most `2^1022` and that no
+intermediate result overflows (`y`, `z`, `z * scale` finite). -/
+theorem makePrecise_idem_model' (pm : PM) (ms : ℕ) (es : ℤ) (hs : pm.scale = .fin false ms es) (hms : ms ≠ 0)
+    (hS : finRat false ms es ≤ 2 ^ (1022 : ℤ))
+    (hg : vLt one pm.gridSize = false) (v : Val)
+    (ny : Bool) (my : ℕ) (ey : ℤ) (hy : mulF v pm.scale = .fin ny my ey)
+    (hr0 : javaRound (finRat ny my ey) ≠ 0) (hr : (javaRound (finRat ny my ey)).natAbs ≤ 2 ^ 50)
+    (nz : Bool) (mz : ℕ) (ez : ℤ) (hz : pm.makePrecise v = .fin nz mz ez)
+    (ny' : Bool) (my' : ℕ) (ey' : ℤ) (hy' : mulF (.fin nz mz ez) pm.scale = .fin ny' my' ey') :
+    pm.makePrecise (pm.makePrecise v) = pm.makePrecise v := by
+  have h2e : (0 : ℚ) < 2 ^ es := zpow_pos (by norm_num) es
+  have hmsq : (0 : ℚ) < ms := by exact_mod_cast Nat.pos_of_ne_zero hms
+  have hSpos : 0 < finRat false ms es := by rw [finRat_eq]; simp; exact mul_pos hmsq h2e
+  have hsmall : (0 : ℚ) < 2 ^ (-1022 : ℤ) := zpow_pos (by norm_num) _
+  have hprod : (2 : ℚ) ^ (-1022 : ℤ) * 2 ^ (1022 : ℤ) = 1 := by
+    rw [← zpow_add₀ (by norm_num : (2 : ℚ) ≠ 0)]; simp
+  generalize hrdef : javaRound (finRat ny my ey) = r at hr0 hr
+  have hr1 : (1 : ℚ) ≤ |(r : ℚ)| := by
+    rw [← Int.cast_abs]
+    have : (1 : ℤ) ≤ |r| := Int.one_le_abs hr0
+    exact_mod_cast this
+  obtain ⟨m0, e0, ho, hov, hm0⟩ := ofInt_exact ny r hr0 (by
+    have : (2 : ℕ) ^ 50 < 2 ^ 53 := by norm_num
+    omega)
+  have h1 : pm.makePrecise v = divF (.fin (decide (r < 0)) m0 e0) (.fin false ms es) := by
+    rw [makePrecise_scale_branch pm ms es hs hms hg, hy]
+    show divF (ofInt ny (javaRound (finRat ny my ey))) pm.scale = _
+    rw [hrdef, ho, hs]
+  have hz1 : roundNE (decide (r < 0) != false) (finRat (decide (r < 0)) m0 e0 / finRat false ms es) = .fin nz mz ez := by
+    rw [← hz, h1]
+    show _ = if ms = 0 then _ else _
+    rw [if_neg hms]
+  rw [hov] at hz1
+  -- z is in the normal range
+  have hq1 : (2 : ℚ) ^ (-1022 : ℤ) ≤ |(r : ℚ) / finRat false ms es| := by
+    rw [abs_div, abs_of_pos hSpos, le_div_iff₀ hSpos]
+    calc (2 : ℚ) ^ (-1022 : ℤ) * finRat false ms es ≤ 2 ^ (-1022 : ℤ) * 2 ^ (1022 : ℤ) :=
+          mul_le_mul_of_nonneg_left hS (le_of_lt hsmall)
+      _ = 1 := hprod
+      _ ≤ |(r : ℚ)| := hr1
+  have hmz := roundNE_fin_full _ _ nz mz ez hz1 hq1
+  have hdiv := roundNE_fin_err _ _ nz mz ez hz1 hmz
+  have hy1 : roundNE (nz != false) (finRat nz mz ez * finRat false ms es) = .fin ny' my' ey' := by
+    rw [← hy', hs]; rfl
+  -- z * scale is in the normal range: it is r up to a relative error
+  have hzs : |finRat nz mz ez * finRat false ms es - r| ≤ (2 : ℚ)⁻¹ ^ 53 * |finRat nz mz ez * finRat false ms es| := by
+    have e : finRat nz mz ez * finRat false ms es - r = (finRat nz mz ez - (r : ℚ) / finRat false ms es) * finRat false ms es := by
+      field_simp
+    rw [e, abs_mul, abs_mul, abs_of_pos hSpos, ← mul_assoc]
+    exact mul_le_mul_of_nonneg_right hdiv (le_of_lt hSpos)
+  have hq2 : (2 : ℚ) ^ (-1022 : ℤ) ≤ |finRat nz mz ez * finRat false ms es| := by
+    have t1 : |(r : ℚ)| ≤ |finRat nz mz ez * finRat false ms es| + |finRat nz mz ez * finRat false ms es - r| := by
+      have := abs_sub_abs_le_abs_sub (r : ℚ) (finRat nz mz ez * finRat false ms es)
+      rw [abs_sub_comm] at this; linarith
+    have hu : (2 : ℚ)⁻¹ ^ 53 ≤ 1 := by norm_num
+    have hnn : 0 ≤ |finRat nz mz ez * finRat false ms es| := abs_nonneg _
+    have hlt : (2 : ℚ) ^ (-1022 : ℤ) ≤ 1 / 2 := by
+      rw [zpow_neg, show (1 : ℚ) / 2 = (2 ^ (1 : ℤ))⁻¹ by norm_num]
+      apply inv_anti₀ (by positivity)
+      exact zpow_le_zpow_right₀ (by norm_num) (by norm_num)
+    have hD : |finRat nz mz ez * finRat false ms es - r| ≤ |finRat nz mz ez * finRat false ms es| :=
+      le_trans hzs (by
+        calc (2 : ℚ)⁻¹ ^ 53 * |finRat nz mz ez * finRat false ms es|
+            ≤ 1 * |finRat nz mz ez * finRat false ms es| := mul_le_mul_of_nonneg_right hu hnn
+          _ = _ := one_mul _)
+    have hW : 1 / 2 ≤ |finRat nz mz ez * finRat false ms es| := by linarith only [hr1, t1, hD]
+    exact le_trans hlt hW
+  have hmy' := roundNE_fin_full _ _ ny' my' ey' hy1 hq2
+  exact makePrecise_idem_model pm ms es hs hms hg v ny my ey hy (by rw [hrdef]; exact hr0) (by rw [hrdef]; exact hr)
+    nz mz ez hz hmz ny' my' ey' hy' hmy'
 
 end GeosModel.Precision
